@@ -10,8 +10,11 @@ RULE = ("seeded valid sets (scatter, full cells and full-minus-k cells at every 
 
 
 def gen(rng):
-    if rng.random() < 0.04:
+    r = rng.random()
+    if r < 0.04:
         return gens2.gen_c17_deep(rng)
+    if r < 0.14:
+        return gens2.gen_c17_big(rng)      # orders 15 and 16
     return gens2.gen_c17(rng)
 
 
